@@ -151,7 +151,7 @@ func fileCases(thorough bool, want func(string) bool, emit func(kase)) {
 	type lay struct{ k, tail int }
 	lays := []lay{{4, 2}, {1, 0}}
 	if thorough {
-		lays = []lay{{4, 2}, {1, 0}, {16, 5}, {64, 0}}
+		lays = []lay{{4, 2}, {1, 0}, {16, 5}, {32, 0}}
 	}
 	for _, reader := range []string{"std", "mmap"} {
 		for _, la := range lays {
